@@ -12,584 +12,832 @@ Definition show_fres (r : fres) : string :=
   end.
 Definition check (rs : list rune) : string := digest (show_fres (format_res rs)).
 Definition full (rs : list rune) : string := show_fres (format_res rs).
-Eval vm_compute in ("<<<M165>>>" ++ check (runes_of_ascii "packet falsey { char[7
-    ]
-Foo @calculatedFrom( ""CRC32"" ) , @tag(
-    //
-    10)	u8 Packet`" ++ [233]%N ++ runes_of_ascii "` ,repeat  stringy
+Eval vm_compute in ("<<<M1730>>>" ++ check (runes_of_ascii "MetaData
+chars {int8
+
+    Z9_
+
+,  float	rootA
+
+`tab	here` 	 // @lengthOf(
+	  , 
+      //x
+		// @lengthOf(
+	  T
+
+o`it's`
+
 ,
-@lengthOf( // a // b
-float)tag { repeat
-    u8x {
-int16 charz@lengthOf(trueish ) , //	t
-repeat  string calculatedFrom,
-charz @calculatedFrom(  ""a\""b""
-)	`line1
-line2`
-,
-},u64
-    MetaDataX @calculatedFrom( """ ++ [128512]%N ++ runes_of_ascii """
-    ) `" ++ [233]%N ++ runes_of_ascii "`
-    ,rootA
-    // packet A { u8 x, }
-    {
-    repeat	u64 BodyLength
-`" ++ [233]%N ++ runes_of_ascii "` , pack @calculatedFrom( //x
-""{,}"" )
-    `" ++ [28040; 24687; 31867; 22411]%N ++ runes_of_ascii "` ,repeat // c
-x charz,
-},
-    // a // b
-    char[] packetx, }	, // `tick` ""quote"" 'q'
-calculatedFrom , u x_y_z
-,repeat	int	i64_ ,@leftPad (
-    ' '
-)u32 T @calculatedFrom( ""{,}"" )
-, repeat
-    metadata , } root packet
-chars
-{ char[	65535
-]  pack @lengthOf( As ) `tab	here` , char[
-255] msg_type `// not a comment`
-    ,@calculatedFrom(
-    ""// no comment"" ) @tag( //	t
-0 ) @tag(10 ) repeat Header {
-    char[]
-// @lengthOf(
-// " ++ [27880; 37322]%N ++ runes_of_ascii "
-i64_,repeat T//x
-`` ,match uint8x	as i64_ {
-00// `tick` ""quote"" 'q'
-: _x ,	65535: //
-Z9_,
-""1""
-: u8x ,
-007 : Z9_
-, 255
-:
-matchKey
-""1"" :
-crc , } , } ,
-    @calculatedFrom(	""packet""	) match int as x_y_z{ 0123456789 :	Logon
-    // @lengthOf(
+	roots  int	,  // c
+    repeatCount MetaDataX
+	, float32
+	falsey `say ""hi""`, 
+}  packet
+msg_type
+	{  repeat	f32
+o  // `tick` ""quote"" 'q'
+	, @tag(
+
+0
+) 
+char[]A
+
+,repeat 
+char[] tag`say ""hi""`
+,	repeat char[
+
+0 ]
+	Z9_ ,
+
+    zchar[ 
+1
+	]  lengthOf
+	,
+
+    i64 
+T  , 
+match
+	float
+    as leftPad{ 
+007 :
+len/// triple
     ,
-    //	t
-    [ 0123456789, ""it's"" ]
-:
-int
-    , [""a	b"" , ""CRC32"" , 0, 4294967296 , """"	] :
-pack , 0 : u , } , match // @lengthOf(
-string_ as
-int
-{ 0: repeatCount [ ""abc""
-    ] : // " ++ [27880; 37322]%N ++ runes_of_ascii "
-float 007: msg_type , [
-    ""a\""b""	]:
-charz , } , i16 MetaDataX`say ""hi""`, repeat u `tab	here` , repeat falsey  { repeat i8 lengthOf `a\` ,
-    repeatCount@lengthOf( o)
-    `{ , }`,}, }packet rootA
-    { calculatedFrom//	t
-@calculatedFrom( ""x y"") ,
-char Pad @calculatedFrom( ""a\""b"" ) `" ++ [233]%N ++ runes_of_ascii "`
-    , @leftPad
-( '\x00' )	repeat float64 tag ,
-    // " ++ [27880; 37322]%N ++ runes_of_ascii "
-    @calculatedFrom( ""1"") repeat Foo ,  } // " ++ [27880; 37322]%N)).
-Eval vm_compute in ("<<<M324>>>" ++ check (runes_of_ascii "MetaData Pad { char[] Packet , f32a i64_
-    `tab	here`
-// c
-// a // b
+""it's"" : 
+len
+
+    , ""it's""  :// @lengthOf(
+		float[
+
+255	,
+00	,
+    ""abc"" , ""abc""
 ,
-} root packet
-    As { @calculatedFrom(""CRC32""	)@calculatedFrom(  ""1""  ) @calculatedFrom( ""// no comment""
-// a // b
-//
-)	As
-As `say ""hi""` , Foo  msg_type , calculatedFrom
-@calculatedFrom( ""\n"" ) , zchar {	zchar[ 7 ] charz // `tick` ""quote"" 'q'
-@calculatedFrom(""x y"" )
-    , Z9_
-    `{ , }` , repeat int { zchar[ 3
-] i8i8
-    @lengthOf( chars )
+
+    1
+
 ,
-match zchar as
-    o {1 : //
-u128	,
-    0
-:
-// trailing space 
-//x
-stringy
-, 42
-: charz""x y"": a1 3 : Header ,
-4294967296 : o } , repeat
-Header `two words`, match u8x  as u8x
-{
-[ 10] : pack ,	1 :
-BodyLength
-//
-// " ++ [27880; 37322]%N ++ runes_of_ascii "
-0 : MetaDataX
-,42
-:  calculatedFrom },	} /// triple
-, } , // " ++ [27880; 37322]%N ++ runes_of_ascii "
-}
-// `tick` ""quote"" 'q'
-/// triple
-packet
-    i64_ { }
-    root packet x { Header
-{char[ /// triple
-0 ] _x `// not a comment`
-    ,
-}
-    ,@lengthOf( A
-)uint32 f32a
-@calculatedFrom( ""abc""
-    )
-// `tick` ""quote"" 'q'
-// " ++ [27880; 37322]%N ++ runes_of_ascii "
-,
-repeat i16 trueish `u8 x,` ,@rightPad	( ' ' )@calculatedFrom( ""a\\"" ) float,
-    repeat char[ 7
-]zchar,
-    @tag( 10 ) repeat
-    //	t
-    a1 falsey	`say ""hi""`,
+	""" ++ [28040; 24687]%N ++ runes_of_ascii """ 	 // `tick` ""quote"" 'q'
+      ,
+
+""x y"" , """"  // a // b
+]  :	_x
+
+,	"""" 
+:len ,
+""\" ++ [233]%N ++ runes_of_ascii """
+	: // a // b
+
+i64_
+, //	t
+      }
+    , roots{ 
+char[1
+	] 	 // @lengthOf(
+  Header
+
     @lengthOf(
-len )repeat zchar[	00
-    // `tick` ""quote"" 'q'
-    ] uint8x ,}
-MetaData  metadata {
-u8 body
-, }")).
-Eval vm_compute in ("<<<M128>>>" ++ check (runes_of_ascii "root
-packet // " ++ [27880; 37322]%N ++ runes_of_ascii "
-crc
-    {	@lengthOf(	As
-)@calculatedFrom(""\" ++ [233]%N ++ runes_of_ascii """
-    ) zchar[ 4294967296 ]MetaDataX `doc` ,/// triple
-rootA @calculatedFrom( ""it's"" )	,@tag( 65535
-    ) @tag( // c
-7 )@tag( 00
-//
-// c
-) len @lengthOf( A ) `two words` ,
-// trailing space 
-// " ++ [128512]%N ++ runes_of_ascii " emoji
-string	rootA@lengthOf( pack
-// trailing space 
-//	t
-) ,
-// " ++ [128512]%N ++ runes_of_ascii " emoji
-// trailing space 
-repeat zchar ,
-@calculatedFrom( ""abc"" )@leftPad ('\x00' ) @rightPad
-( )match x_y_z
-    as Z9_{
-""it's""
-    :
-Logon//x
-, ""x y"" : Packet,""abc""
-: trueish 4294967296 // @lengthOf(
-:
-    repeatCount """ ++ [128512]%N ++ runes_of_ascii """:  x_y_z
-} , char[ 10 // @lengthOf(
-]
-    stringy	`it's`
-, @leftPad (
-'\x00' )
-rootA @lengthOf(  i64_  )
-    , } MetaData falsey {
-Packet repeatCount `tab	here` ,
-}MetaData string_ {
-    float64 roots `line1
-line2` , char
-As //
-`
-` , zchar[ 65535 ]falsey`a\` ,A
-    T , _x metadata, } packet
-_x // packet A { u8 x, }
-{zchar[255 ] string_@lengthOf(
-//	t
-// @lengthOf(
-u128 ) `{ , }`	,
-}root packet Packet
-    {repeat // " ++ [128512]%N ++ runes_of_ascii " emoji
-lengthOf , }")).
-Eval vm_compute in ("<<<M70>>>" ++ check (runes_of_ascii "packet pack { @lengthOf(
-Foo
-    // c
+x_y_z ), 
+body
+u128 , 	 // `tick` ""quote"" 'q'
+  char[]
+float
+, chars
+
+@lengthOf( x
+
     )
-    asx @lengthOf( _x ) /// triple
-, u8	x_y_z `two words` ,repeat
-    zchar[0
-    ] roots `
-`
+`doc` ,
+
+} ,
+    crc`it's` 
     // `tick` ""quote"" 'q'
-    , lengthOf @calculatedFrom( ""abc""
-) ,
-@tag( 3 ) @rightPad	( ' ')@calculatedFrom(
-""1""
-//x
-// " ++ [27880; 37322]%N ++ runes_of_ascii "
-)
-repeat uint64 i64_ // trailing space 
-`say ""hi""` // @lengthOf(
-,	@tag( 007 ) match roots as float {	""a	b""
-    : lengthOf,
-    [1, // @lengthOf(
-""\n""
+  ,
+    @calculatedFrom(	""" ++ [128512]%N ++ runes_of_ascii """ ) BodyLength 
+`" ++ [28040; 24687; 31867; 22411]%N ++ runes_of_ascii "` 
 ,
-""a\""b"" , ""\" ++ [233]%N ++ runes_of_ascii """ ,  ""1"",
-    42 ]: msg_type, """ ++ [128512]%N ++ runes_of_ascii """: Foo} ,T//x
+
+    } packet	u128
 {
-    match
-Header
-as trueish
-{ [
-// `tick` ""quote"" 'q'
-// @lengthOf(
-0 , 3// @lengthOf(
-, ""{,}"" ,
-""1"" ,
-00  ,
-0123456789
-,
-    ""// no comment"" ]
-:As
-    , }
-    , } , repeat char[
-    10
-]
-o `
-`
-, @calculatedFrom(
-    //
-    ""`tick`"" //x
-) repeat crc {
-    repeatCount o ,
-    u8x
-As, } ,
-} packet pack{@calculatedFrom( """ ++ [233]%N ++ runes_of_ascii "t" ++ [233]%N ++ runes_of_ascii """ )  u32 f32a
-,
-}
-    MetaData float
-{u32 options1 , }
-packet
-f32a { }
-")).
-Eval vm_compute in ("<<<M141>>>" ++ check (runes_of_ascii "options // @lengthOf(
-{zchar = char[] Z9_	='0' ;
-} options
-{ asx = char[] }root packet leftPad { T @lengthOf(
-    f32a//
-)
-, } //
-root
-//x
-// @lengthOf(
-packet calculatedFrom {
-u
-    {//	t
-char[] // packet A { u8 x, }
-T `" ++ [233]%N ++ runes_of_ascii "`	,	match stringy /// triple
-as //	t
-chars { [
-    0123456789 ]
-: T ,
-// `tick` ""quote"" 'q'
-// " ++ [27880; 37322]%N ++ runes_of_ascii "
-}	, uint16 a1 @lengthOf( x) , string
-chars `two words` ,
-} , @calculatedFrom(
-    ""x y"")char[]
-// " ++ [27880; 37322]%N ++ runes_of_ascii "
-// " ++ [128512]%N ++ runes_of_ascii " emoji
-body @lengthOf(
-lengthOf )
-    /// triple
-    ,
-    @lengthOf(	A	)rootA
-,	@lengthOf(i64_ ) // packet A { u8 x, }
-repeat f32a { lengthOf
-    // " ++ [128512]%N ++ runes_of_ascii " emoji
-    charz // a // b
-`" ++ [28040; 24687; 31867; 22411]%N ++ runes_of_ascii "`, }
-    // packet A { u8 x, }
-    ,
-match tag as
-//x
-//	t
-T { [
-3
-] : falsey , }	,zchar[
-    00
-    ] charz@lengthOf(
-    Pad
-) ,
-@tag( 3	) lengthOf{ i16 As ,
-} ,
-} root
-packet	body{ }
-")).
-Eval vm_compute in ("<<<M354>>>" ++ check (runes_of_ascii "options {
-} packet u8x{ string uint8x@calculatedFrom(""{,}"" )	`crlf
-line`	,} MetaData falsey{
-    Logon packetx `tab	here` , } root packet o
-{ falsey@calculatedFrom(
-//x
-// " ++ [27880; 37322]%N ++ runes_of_ascii "
-""" ++ [28040; 24687]%N ++ runes_of_ascii """ ) ,	@tag(0123456789) // `tick` ""quote"" 'q'
-char[
-    // `tick` ""quote"" 'q'
-    0123456789
-]	u128@calculatedFrom(
-""{,}"" ) ,
-    @tag(
-    00)
-@lengthOf( stringy
-) @tag( 4294967296
-)  rootA Header,  @lengthOf(As
-    )
-    repeat leftPad `// not a comment`// c
-, i8 leftPad @calculatedFrom( """" ) , @tag( 10
-) zchar[ 007
-] packetx
-@lengthOf( // packet A { u8 x, }
-u8x )	`" ++ [28040; 24687; 31867; 22411]%N ++ runes_of_ascii "` ,
-}packet	options1 {
-//	t
-// trailing space 
-falsey// packet A { u8 x, }
-{ //	t
-zchar[ 3
-    ]// " ++ [128512]%N ++ runes_of_ascii " emoji
-roots
-//
-// a // b
-,
-    u32 Header // c
-,
-} ,// a // b
-}")).
-Eval vm_compute in ("<<<M288>>>" ++ check (runes_of_ascii "// packet A { u8 x, }
-MetaData
-    _x
-{ //
-char[] len
-    ,}options
-// @lengthOf(
-//
-{ repeatCount =""""
-    ; }// c
-root packet chars {
-    char[ 255
-]u8x,	repeat
-/// triple
-// c
-string repeatCount
-`" ++ [28040; 24687; 31867; 22411]%N ++ runes_of_ascii "` ,
-repeat zchar[ 10
-]
-string_ , @tag( // trailing space 
-255
-    ) i8i8{// packet A { u8 x, }
-options1
-calculatedFrom `u8 x,`
-,
-    i64
-len,
-    roots // c
-{ // @lengthOf(
-repeat
-    // a // b
-    i64_ zchar //
-,
-    } ,
-    }
-, match chars as Packet	{
-""a\""b"": Pad
-,[ ""{,}""
-    ]
-:
-calculatedFrom // a // b
-,
-""" ++ [233]%N ++ runes_of_ascii "t" ++ [233]%N ++ runes_of_ascii """
-//x
-// `tick` ""quote"" 'q'
-: uint8x ,[ // packet A { u8 x, }
-""`tick`"" ,0
-    , 42
-    ] : _x[ 0123456789	, ""\" ++ [233]%N ++ runes_of_ascii """
-    ] :
-i8i8,	} ,	}
-")).
-Eval vm_compute in ("<<<M131>>>" ++ check (runes_of_ascii "
-root
-packet
-u8x{ char
-// trailing space 
-// @lengthOf(
-i64_ ,repeat char[1
-] Z9_ , @tag(
-//x
-// " ++ [128512]%N ++ runes_of_ascii " emoji
-42
-) repeat Logon MetaDataX , @leftPad
-    //
-    ( )
-    Foo
-@lengthOf( As
-    ) // " ++ [128512]%N ++ runes_of_ascii " emoji
-, match u128	as //	t
-calculatedFrom {// " ++ [128512]%N ++ runes_of_ascii " emoji
-4294967296:
-BodyLength,
-    3:  A , //
-[ 4294967296//
-, ""packet""] : o	, 65535 : roots } ,
-repeat Pad { uint64 x @calculatedFrom( """ ++ [128512]%N ++ runes_of_ascii """
-    ) , a1 @lengthOf( As)
-    `line1
-line2` ,	repeat string_{repeat uint32 _x	, f32
-MetaDataX `it's`
-    //	t
-    , u64 As  @lengthOf( crc ) , } ,
-    roots , }, zchar[  00] // @lengthOf(
-u128, }
-//	t
-")).
-Eval vm_compute in ("<<<M296>>>" ++ check (runes_of_ascii "MetaData u128
-{  zchar[ 3 ] matchKey	`crlf
-line` //
-, } // packet A { u8 x, }
-options
-{ //x
-} root	packet rootA
-    { @calculatedFrom(
-    ""{,}"" ) repeat u16 len ,repeat body,i8i8 @lengthOf( packetx),metadata int `line1
-line2` ,  uint8x `two words` // c
-, int16 //
-x_y_z
-, repeatCount , Logon {  repeat// trailing space 
-i8 Packet `line1
-line2`
-, } ,}
-options
-{// " ++ [128512]%N ++ runes_of_ascii " emoji
+
 lengthOf
-//
-// trailing space 
-= ' ' ;
-i64_ = ""{,}"" ; msg_type
-= '0'
-; u=
-// packet A { u8 x, }
-// " ++ [27880; 37322]%N ++ runes_of_ascii "
-i32;_x = ""abc""
-    // packet A { u8 x, }
-    ; }
-")).
-Eval vm_compute in ("<<<M340>>>" ++ check (runes_of_ascii "packet leftPad//
-{@rightPad () repeat chars	{crc /// triple
-pack  ,
-} ,
-@calculatedFrom( """ ++ [28040; 24687]%N ++ runes_of_ascii """ )@lengthOf(options1  )@tag( 65535 ) Foo,match
-matchKey
-    as // " ++ [128512]%N ++ runes_of_ascii " emoji
-tag	{
-    // c
-    [ ""{,}"",
-""""
-, ""`tick`"" ,
-3 ,""it's"",  """ ++ [128512]%N ++ runes_of_ascii """	,
-""it's""] :As
-    , [
-/// triple
-//	t
-""x y""]
-    //x
-    :
-chars,""" ++ [233]%N ++ runes_of_ascii "t" ++ [233]%N ++ runes_of_ascii """	:uint8x,4294967296:	packetx
-""// no comment""
-:
-calculatedFrom , }
-,  @calculatedFrom( ""// no comment""// @lengthOf(
-)
-char[// trailing space 
-007 ]	f32a ,} // a // b")).
-Eval vm_compute in ("<<<M374>>>" ++ check (runes_of_ascii "MetaData BodyLength { zchar[ 65535 ]	As `crlf
-line`
-, u16 charz , body len,
-zchar msg_type ,uint64 metadata
-,}
-root packet //
-matchKey
-    {
-repeat i8i8  `{ , }` ,
-} MetaData a1 { i8i8 Pad`it's`	,
-// trailing space 
-// `tick` ""quote"" 'q'
-int64
-    // " ++ [128512]%N ++ runes_of_ascii " emoji
-    roots `doc` ,
-Foo BodyLength `u8 x,` , } packet	_x
-{ lengthOf
-    {
-pack `" ++ [28040; 24687; 31867; 22411]%N ++ runes_of_ascii "` ,
-string_ // @lengthOf(
-, repeat //
-rootA len , zchar[ 1
-] u8x,} , }
-")).
-Eval vm_compute in ("<<<M1817>>>" ++ check (runes_of_ascii "packet leftPad {
-    @tag(10)
-    @tag(007)
-    @lengthOf(a1)
-    // a // b
-    //
-    repeat metadata,
-}// " ++ [128512]%N ++ runes_of_ascii " emoji
+    ,	pack
+@lengthOf( u8x// c
+  )
 
-options {
-    lengthOf = """ ++ [128512]%N ++ runes_of_ascii """;
+    `// not a comment`  // " ++ [27880; 37322]%N ++ runes_of_ascii "
+,@leftPad (' '
+	)float
+	{match
+asx  as
+
+charz{ 
+[ 
+4294967296  , """"
+    , 255,
+
+42
+,
+""1"" 
+] :u8x ""{,}"" :
+
+Foo 42 :
+leftPad [	// trailing space 
+255 
+, 
+	    // " ++ [128512]%N ++ runes_of_ascii " emoji
+
+""a\""b"" ,
+""it's"",
+4294967296
+	] :
+stringy
+,3
+:Header
+,} 
+,
+	match
+o// `tick` ""quote"" 'q'
+  as 
+Pad 
+    // trailing space 
+
+  {3	:
+    i64_	//x
+
+	, 
+} , repeat string msg_type ,
+	match packetx// " ++ [27880; 37322]%N ++ runes_of_ascii "
+as
+	lengthOf { 
+[""x y"" ,
+    """"
+	]
+:x_y_z 
+// " ++ [27880; 37322]%N ++ runes_of_ascii "
+
+  // c
+} ,
+
+} ,
+i64
+    float
+
+    , 
+repeat	zchar[ 3
+	]rootA  `crlf
+line`
+, 
+match
+	msg_type
+    as
+
+len { ""CRC32"" : MetaDataX  ,
+}	,f32
+
+A ,  char[ 
+0123456789
+
+]	chars	// " ++ [27880; 37322]%N ++ runes_of_ascii "
+	`{ , }`
+,/// triple
+
+@calculatedFrom(	""a\""b"")
+string	string_ `" ++ [233]%N ++ runes_of_ascii "`,
+}")).
+Eval vm_compute in ("<<<M156>>>" ++ check (runes_of_ascii "packet
+A { @rightPad ( '0' ) repeat	i8i8
+    { zchar[ 007 ]
+    packetx,
+    metadata `" ++ [28040; 24687; 31867; 22411]%N ++ runes_of_ascii "` ,	repeat float64  T ,}, @tag(0)Z9_ { int
+@lengthOf( tag
+)`line1
+line2`
+, repeat i8i8 // packet A { u8 x, }
+{  zchar[  00 ]stringy
+,
+repeat f32a{ match i64_ //
+as
+    string_ {[ 255 , ""{,}"" , 0123456789 ]
+: x_y_z
+, """ ++ [233]%N ++ runes_of_ascii "t" ++ [233]%N ++ runes_of_ascii """ : A
+, ""`tick`"" : len ,} , } ,
+    //
+    repeat u8x {u16 Z9_
+@calculatedFrom(""" ++ [128512]%N ++ runes_of_ascii """ ) `line1
+line2` ,f32 matchKey
+    ,} ,// " ++ [27880; 37322]%N ++ runes_of_ascii "
+float64 u8x `
+`,
+    },//
+} , // `tick` ""quote"" 'q'
+a1	{ repeat
+    // trailing space 
+    zchar[ 007
+] Foo `two words`
+,f32a	@calculatedFrom( """ ++ [28040; 24687]%N ++ runes_of_ascii """// trailing space 
+) ,int64 i64_  @calculatedFrom( // trailing space 
+""`tick`"" ) , } ,
+    @lengthOf(
+    // c
+    Header )	f32
+stringy @calculatedFrom(
+""x y"" )`say ""hi""` , Foo , float64
+BodyLength@calculatedFrom( // " ++ [27880; 37322]%N ++ runes_of_ascii "
+""packet"") ,
+    uint32
+// packet A { u8 x, }
+//
+int
+//
+//x
+, } packet string_{ @tag( 4294967296
+) repeat u
+`two words` , repeat zchar[ 0 ]
+BodyLength
+, @tag( 255 )/// triple
+int `line1
+line2` ,	uint8x`it's`,@tag(
+65535 )
+int8
+    metadata
+`" ++ [233]%N ++ runes_of_ascii "` ,/// triple
+match
+options1
+//x
+// " ++ [128512]%N ++ runes_of_ascii " emoji
+as
+    float// packet A { u8 x, }
+{ 3: f32a , """ ++ [28040; 24687]%N ++ runes_of_ascii """
+    : charz
+,}
+,match uint8x	as
+string_ { ""CRC32"" //x
+:
+x
+, } , uint8	packetx`crlf
+line` ,
+@leftPad (
+)
+    zchar[
+0
+] Foo `say ""hi""`, }
+")).
+Eval vm_compute in ("<<<M331>>>" ++ check (runes_of_ascii "packet o
+// trailing space 
+//x
+{	repeat pack stringy `two words`	,
+    char[	1 ]
+leftPad , }
+/// triple
+// @lengthOf(
+MetaData msg_type{ zchar[  1] Pad`" ++ [28040; 24687; 31867; 22411]%N ++ runes_of_ascii "` , uint32 //x
+charz//
+`a\`
+,  A u8x `// not a comment` ,
+    // `tick` ""quote"" 'q'
+    } packet
+options1
+    {@calculatedFrom( """ ++ [233]%N ++ runes_of_ascii "t" ++ [233]%N ++ runes_of_ascii """
+) @rightPad( )
+Pad
+@lengthOf(// packet A { u8 x, }
+pack ) `` ,
+match
+    A
+as
+    a1 { 255  :
+msg_type  ,
+}
+,
+// " ++ [27880; 37322]%N ++ runes_of_ascii "
+//
+@lengthOf( tag )  @tag( 00 )@rightPad(' '
+) match Header	as f32a { """" : float , } // @lengthOf(
+, char[] T@calculatedFrom(
+    // packet A { u8 x, }
+    ""packet""	) , repeat asx /// triple
+msg_type`crlf
+line` , @calculatedFrom( ""\" ++ [233]%N ++ runes_of_ascii """ ) @tag( // trailing space 
+7
+)
+int64 o
+`line1
+line2`,
+    // trailing space 
+    } // " ++ [128512]%N ++ runes_of_ascii " emoji
+root
+packet// packet A { u8 x, }
+crc  { int8
+body
+@lengthOf( matchKey ) `two words` ,
+    //	t
+    @lengthOf( u8x )
+zchar[
+0123456789
+    ] i8i8,
+} MetaData  a1 { falsey _x
+`
+` ,
+char[] body`" ++ [28040; 24687; 31867; 22411]%N ++ runes_of_ascii "` ,
+// packet A { u8 x, }
+//
+zchar[ 42] trueish `
+` , float trueish,  metadata //x
+o `{ , }`, }")).
+Eval vm_compute in ("<<<M1938>>>" ++ check (runes_of_ascii "
+
+  options{
+StringPrefixLenType
+
+    = 
+u64 ; 
+ArrayPrefixLenType =u32 ;
+FixedStringPadFromLeft	=false 
+;}
+packet  Party
+{
+
+zchar[
+
+7  ] OrderId
+
+    ,
+    InTail6
+	{
+
+repeat	char[ 1  ]
+
+msgKind ,  char[3
+	]Tail ,char[3  ] 
+Flags
+
+    ,	i16 tag7 
+, },
+    @rightPad
+
+(	'0' )char[
+12 
+]
+clOrdID,
+
+} packet
+
+    Quote  { @leftPad
+    (
+'0'
+    ) char[	11 ] price,
+repeat  InCount7	{ i32 x
+    ,	Party,	u8 Ref
+	, u8 tag7
+	,},char[] seqNo ,
+
+    Party ,	}
+packet  Logon
+	{ @rightPad
+    ('\x00' ) char[5]Note	,
+i16
+
+    sym
+
+    ,
+
+    InPrice72{
+	char[9 
+]
+
+Ref 
+, zchar[
+1  ]  venue 
+,  }
+,
+
+    char[]
+clOrdID, }root	packet Reject{
+
+    repeat
+	Logon
+    , @leftPad  (
+' '
+)	char[ 
+4
+	]
+
+    seqNo, 
+zchar[
+
+    5
+
+]
+
+Acct  ,  u32	x
+,
+u16	f1 @lengthOf( Body
+),	match x
+as Body
+
+{ [
+	169
+,
+74
+    ]:  Quote,
+    45 
+:
+	Party , 7
+
+    :
+
+    Logon,
+
+    }
+,
+	}")).
+Eval vm_compute in ("<<<M1321>>>" ++ check (runes_of_ascii "// top
+packet // c0
+P1
+    // c1
+{ // c2
+u8
+    // c3
+a // c4a
+  // c4b
+,
+    // c5
+} // c6
+packet
+    // c7
+P2 // c8
+{ // c9a
+  // c9b
+P1 // c10
+, } // c12a
+  // c12b
+packet // c13a
+  // c13b
+P3
+    // c14
+{
+    // c15
+P2
+    // c16
+, // c17
+P1 , // c19
+} // c20a
+  // c20b
+packet // c21
+P4 // c22
+{ // c23
+repeat // c24a
+  // c24b
+P3
+    // c25
+, P2 , } root // c30a
+  // c30b
+packet // c31
+P5 { // c33
+P4
+    // c34
+,
+    // c35
+P3 // c36a
+  // c36b
+, P1
+    // c38
+,
+    // c39
+u8 K // c41
+, // c42
+match // c43
+K // c44a
+  // c44b
+as
+    // c45
+Body // c46a
+  // c46b
+{ // c47a
+  // c47b
+4 : // c49a
+  // c49b
+P4 // c50
+, // c51
+3 :
+    // c53
+P3 // c54a
+  // c54b
+, // c55a
+  // c55b
+2 // c56a
+  // c56b
+:
+    // c57
+P2 ,
+    // c59
+1 : // c61a
+  // c61b
+P1 // c62
+, // c63a
+  // c63b
+}
+    // c64
+, }
+    // c66
+")).
+Eval vm_compute in ("<<<M1799>>>" ++ check (runes_of_ascii "
+
+  root packet matchKey
+
+{ match 
+Foo as 
+Z9_ 
+{ // c
+  [
+	""x y""
+    , ""1""  ,
+007, 7
+]:
+
+    pack	,
+
+""`tick`""
+    : 
+u128	,
+    ""a	b"" :  msg_type,
+	[  
+      //
+
+  //
+	  00
+,
+65535
+]
+
+: a1
+,""it's""
+:
+
+Foo 
+,	// " ++ [128512]%N ++ runes_of_ascii " emoji
+	[	//x
+
+""""
+
+]	: u , }
+	,}	packet calculatedFrom	// c
+  { msg_type 
+{ T @calculatedFrom(
+""\n"" )
+	, float64
+	i8i8 ,
+	As
+
+    `
+` ,u32 rootA 
+@lengthOf( 
+    // c
+	// `tick` ""quote"" 'q'
+    float )
+, }  ,	}
+packet
+// " ++ [27880; 37322]%N ++ runes_of_ascii "
+  	x_y_z
+{  @tag(	//x
+    	0
+) i64_
+	    // " ++ [27880; 37322]%N ++ runes_of_ascii "
+  	@lengthOf(  
+      //
+	MetaDataX
+
+),	}  packet A 
+{ @calculatedFrom( ""a\\"")
+
+@calculatedFrom( ""abc""	)_x
+
+    u	`say ""hi""` 
+,
+	} 
+options
+    // `tick` ""quote"" 'q'
+	{// trailing space 
+  	metadata
+	=""a\\""
+; // a // b
 }
 
-packet T {
-    A {
-        //
-        // `tick` ""quote"" 'q'
-        tag @calculatedFrom(""abc""),
+")).
+Eval vm_compute in ("<<<M184>>>" ++ check (runes_of_ascii "packet options1{@leftPad	( '0' )	@rightPad ( // a // b
+'\x00'
+) @tag(
+255
+) /// triple
+repeat string As `
+`,
+@calculatedFrom(
+"""" )@calculatedFrom(//x
+""x y"" )
+a1
+{ Foo {trueish { tag
+@lengthOf(  i8i8 ) `doc`
+, }
+, zchar[
+00 ] f32a @lengthOf( calculatedFrom) , repeat
+zchar[ 1
+    ] stringy`{ , }`
+    , },uint64  repeatCount	@lengthOf(// `tick` ""quote"" 'q'
+asx
+    ) , char[ 42
+] lengthOf @calculatedFrom(// c
+""packet""), char[ 10 ] calculatedFrom @lengthOf( BodyLength ), } ,
+asx`// not a comment`,  } options { matchKey =""" ++ [128512]%N ++ runes_of_ascii """ falsey = ""a\""b"" ; A // a // b
+= ""CRC32"" msg_type
+    =
+    //x
+    """ ++ [233]%N ++ runes_of_ascii "t" ++ [233]%N ++ runes_of_ascii """	; } MetaData o//	t
+{
+} packet
+Pad{  }")).
+Eval vm_compute in ("<<<M260>>>" ++ check (runes_of_ascii "packet metadata{ @rightPad
+    (	) zchar[
+//	t
+// `tick` ""quote"" 'q'
+0123456789] i64_
+    // @lengthOf(
+    @calculatedFrom( ""\n"" ) , @leftPad (
+    ' '// " ++ [27880; 37322]%N ++ runes_of_ascii "
+) zchar[ // `tick` ""quote"" 'q'
+255
+]
+    MetaDataX `{ , }`// a // b
+, @rightPad (
+' ' )@calculatedFrom(""abc"" ) // " ++ [128512]%N ++ runes_of_ascii " emoji
+@lengthOf(
+matchKey
+// `tick` ""quote"" 'q'
+// `tick` ""quote"" 'q'
+)
+repeat char[ 42 ] packetx // packet A { u8 x, }
+`" ++ [233]%N ++ runes_of_ascii "` ,  trueish@calculatedFrom( ""packet"" )
+`a\` , matchKey int `" ++ [28040; 24687; 31867; 22411]%N ++ runes_of_ascii "` ,	@tag(
+    // c
+    0
+) len{ char[65535 ] Header,
+}
+,@lengthOf( f32a ) zchar[	10  ]
+    trueish `crlf
+line` ,  }
+")).
+Eval vm_compute in ("<<<M1736>>>" ++ check (runes_of_ascii "packet u128 {
+    // trailing space 
+    string Header `say ""hi""`,
+    repeat crc f32a,
+    char[10] _x,
+    @calculatedFrom(""x y"")
+    repeat charz {
+        Logon @lengthOf(T) `crlf
+        line`,
+        repeat char[0123456789] Z9_ `crlf
+        line`,
     },
-    @lengthOf(matchKey)
-    string Header @lengthOf(metadata),
-    leftPad @calculatedFrom(""a\""b"") `crlf
-    line`,
+    match Packet as float {
+        1 : lengthOf,
+    },
+    MetaDataX,
+    match x as u8x {
+        10 : crc,
+    },
+}
+
+root packet Header {
+    @calculatedFrom(""{,}"")
+    a1 {
+        char[007] pack,
+        stringy zchar,
+        repeat char[] o `it's`,
+    },
 }")).
-Eval vm_compute in ("<<<M110>>>" ++ check (runes_of_ascii "root // trailing space 
-packet
-leftPad { T
-@lengthOf(A
-) `" ++ [233]%N ++ runes_of_ascii "`,
-    Header
-    @lengthOf( As ) // " ++ [27880; 37322]%N ++ runes_of_ascii "
+Eval vm_compute in ("<<<M1392>>>" ++ check (runes_of_ascii "packet Logon {
+    repeatCount {
+        BodyLength `crlf
+                line`,
+    },
+    zchar a1 `u8 x,`,
+    match Foo as Foo {
+        ""\n"" : i8i8,
+        [""abc"", ""CRC32""] : crc,
+        [
+            3, ""x y"", 42, ""`tick`"", 1,
+            ""a\""b"", ""CRC32"", 255
+        ] : repeatCount,
+        [
+            1, 007, ""\n"", 007, 7,
+            ""// no comment"", 255
+        ] : uint8x,
+        00 : f32a,
+    },
+    // a // b
+    uint16 Pad @lengthOf(uint8x) `doc`,
+}")).
+Eval vm_compute in ("<<<M1569>>>" ++ check (runes_of_ascii "
+// top
+	  options  // c0
+	{  // c1
+    	f32a// c2
+      = 	 // c3
+0  // c4
+	} 	 // c5
+
+packet// c6
+	trueish// c7
+
+	{  // c8
+
+}// c9
+  MetaData 	 // c10
+  _x // c11
+	{// c12
+    char[  // c13
+	0123456789 // c14
+    ] // c15
+	zchar // c16
+,  // c17
+    string 	 // c18
+		crc 	 // c19
+
+,// c20
+	  char[	// c21
+
+1  // c22
+]// c23
+
+	options1	// c24
+  ,  // c25
+    uint8  // c26
+    	repeatCount	// c27
+,  // c28
+  }// c29
+")).
+Eval vm_compute in ("<<<M76>>>" ++ check (runes_of_ascii "packet rootA { repeat uint16 stringy `" ++ [233]%N ++ runes_of_ascii "`
+,body
+@lengthOf( stringy ) , int32 matchKey // " ++ [27880; 37322]%N ++ runes_of_ascii "
 ,
-string	calculatedFrom `{ , }`
-, @tag( 1) // trailing space 
-u16  x_y_z ,
-@tag( 4294967296
-) x_y_z metadata// " ++ [128512]%N ++ runes_of_ascii " emoji
-,asx { asx `it's`
-    ,} , char[ 65535 ]
-As@lengthOf(
-    Logon ) `a\`
-,@lengthOf(
+    @lengthOf(roots)@calculatedFrom( ""a\""b""
+) @leftPad(' ') i64
+    leftPad
+@lengthOf( repeatCount )
+`u8 x,` , //	t
+f64 len
+    @lengthOf( BodyLength// trailing space 
+) `// not a comment` , @rightPad
+(
+)
+    @leftPad ( '0')repeat
+string len
+, // c
+char[] chars `two words`	, } //	t")).
+Eval vm_compute in ("<<<M1647>>>" ++ check (runes_of_ascii "
+root
+    packet
+    Logon 
+{
+@rightPad
+    ( // @lengthOf(
+
+  '0' )
+	repeat 
+charz  // " ++ [27880; 37322]%N ++ runes_of_ascii "
+
+  { 	 // " ++ [128512]%N ++ runes_of_ascii " emoji
+
 Z9_
-    ) string
-BodyLength ,
-}")).
+
+    `{ , }`
+    ,string string_
+`say ""hi""`,
+
+repeat
+
+int8 
+rootA
+    , match
+    Foo as  pack	{  [
+
+    42
+    // c
+	/// triple
+		, 0
+    ]
+: u,""a\""b""
+:
+
+int
+	,	}
+
+// c
+	// `tick` ""quote"" 'q'
+    	,
+    }
+, 
+}
+")).
 Eval vm_compute in ("<<<M1277>>>" ++ check (runes_of_ascii "// top
 options
     // c0
@@ -623,86 +871,125 @@ Sum
 } // c20a
   // c20b
 ")).
-Eval vm_compute in ("<<<M1316>>>" ++ check (runes_of_ascii "  packet
+Eval vm_compute in ("<<<M1821>>>" ++ check (runes_of_ascii "packet MDSnapshotZZ {
+u8
 
-    MDSnapshotZZ	{	u8
+a	, }  packet
 
-a 
-, }  packet
-    OrderACK  { u16
-b, }packet
-	HTTPServerInfo	{
-string
-s
+OrderACK
+	{ u16 b ,
 
-    ,
-}	root
-    packet  FIXMsg
-    { u8
-KType
-,MDSnapshotZZ  , repeat
+    }
 
-    OrderACK,  match 
-KType as Body{1 :
-
-HTTPServerInfo  ,	2
-
-:OrderACK	,
-
+packet	HTTPServerInfo
+{ string  s
+    , 
 }
 
-    ,}")).
-Eval vm_compute in ("<<<M1671>>>" ++ check (runes_of_ascii "options {
-    // c1a
-    // c1b
-    LittleEndian = true;
-}// c6a
+    root
+	packet  FIXMsg {u8
 
-// c6b
-packet B {
-    u8 a,// c12a
-    // c12b
-    string s,
-}// c16
+    KType
+,
+	MDSnapshotZZ  ,
 
-root packet P {
-    u16 L @lengthOf(B),// c26a
-    // c26b
-    B,
-    // c28
-    u8 t,// c31
-}// c32a")).
-Eval vm_compute in ("<<<M318>>>" ++ check (runes_of_ascii "options {Z9_ =// trailing space 
-""packet"" ;float = false
-; A =
-' ' }
-    // c
-    MetaData pack
-{ zchar[
-3] leftPad
-,zchar
-    falsey `it's` , char[] repeatCount ,char[ 65535 // " ++ [128512]%N ++ runes_of_ascii " emoji
-] Z9_, }
-//	t
+repeat OrderACK
+,match	KType
+as
+    Body
+    {	1 : HTTPServerInfo 
+,
+2:	OrderACK,}	, }
 ")).
-Eval vm_compute in ("<<<M9>>>" ++ check (runes_of_ascii "
-options {body = """ ++ [28040; 24687]%N ++ runes_of_ascii """ }	packet matchKey
-{string_
-// packet A { u8 x, }
-// a // b
-@lengthOf( f32a) ,	int32 int @lengthOf(u128 )	, tag x_y_z ,}packet BodyLength /// triple
-{ }")).
-Eval vm_compute in ("<<<M283>>>" ++ check (runes_of_ascii "
-root packet /// triple
-u8x {}options { o =	zchar[ 1 ]
-    Packet
-    // trailing space 
-    =u32 ; uint8x =""a\\"";
-    /// triple
-    u8x
-=0
+Eval vm_compute in ("<<<M214>>>" ++ check (runes_of_ascii "MetaData tag {body Packet	, int16 // @lengthOf(
+body // `tick` ""quote"" 'q'
+, f32a uint8x , } packet falsey {
+x { char[ 7 ] lengthOf , char[] o
+    `say ""hi""`
+    // `tick` ""quote"" 'q'
+    ,
+//
+/// triple
+}
+,}
+// `tick` ""quote"" 'q'
+")).
+Eval vm_compute in ("<<<M1822>>>" ++ check (runes_of_ascii "
+
+  // top
+  root 	 // c0
+    	packet
+	P // c2
+  {// c3
+hdr 
+  // c4
+
+{ 
+    // c5
+	u8 // c6
+  a  // c7a
+// c7b
+	,  
+      // c8
+  }
+, // c10
+	u8 	 // c11
+  	x // c12a
+
+// c12b
+,
+
+    }
+    // c14
+")).
+Eval vm_compute in ("<<<M1325>>>" ++ check (runes_of_ascii "
+root	packet
+	Frame { u8
+    K , 
+Logon
+	first  ,
+match
+
+    K 
+as
+Body{1 : Logon,
+    2 :
+Logout  ,
+	}	,
+} 
+packet
+Logon
+	{
+string user ,
+} packet
+Logout
+
+{ u16 
+reason , }")).
+Eval vm_compute in ("<<<M1502>>>" ++ check (runes_of_ascii "
+// @lengthOf(
+	packet
+
+i8i8
+	{
+	u128 o
+    ,
+}	options
+{MetaDataX	=
+true
+
 ;
-    crc =""\n"" ; }")).
+BodyLength = 
+""packet""x_y_z
+
+    = 007 crc //x
+	=
+""abc""
+msg_type = 
+i16 
+}
+
+")).
 Eval vm_compute in ("<<<M511>>>" ++ check (runes_of_ascii "packet uint8x
 { match pack
     as msg_type	{
@@ -725,8 +1012,8 @@ a1
     { } options { {packetx
     = '\x00'	; u128= ""a	b""  ; }
 ")).
-Eval vm_compute in ("<<<M402>>>" ++ check (runes_of_ascii "packet uint8x
-match { pack
+Eval vm_compute in ("<<<M407>>>" ++ check (runes_of_ascii "packet uint8x
+{ pack match
     as msg_type	{
     0123456789 :	float
 }
@@ -736,34 +1023,36 @@ a1
     { } options {packetx
     = '\x00'	; u128= ""a	b""  ; }
 ")).
-Eval vm_compute in ("<<<M1450>>>" ++ check (runes_of_ascii "
-MetaData
-
-    leftPad
-{chars
-MetaDataX
-,  }
-
+Eval vm_compute in ("<<<M1803>>>" ++ check (runes_of_ascii "
+MetaData leftPad	{ 
+chars	MetaDataX,
+}
     packet
-repeatCount { char[  // c
-  	255 ] 
-uint8x`" ++ [233]%N ++ runes_of_ascii "` 
-, }
 
-MetaData
-	pack{ As Foo  ,
+    repeatCount {
+char[255	]
 
-    }
+uint8x `" ++ [233]%N ++ runes_of_ascii "`
+,}
+
+MetaData pack 
+    // c
+      {
+	As
+
+Foo ,
+
+}
 
 ")).
-Eval vm_compute in ("<<<M652>>>" ++ check (runes_of_ascii "// @lengthOf(
+Eval vm_compute in ("<<<M698>>>" ++ check (runes_of_ascii "// @lengthOf(
 packet i8i8 { u128 o , }
 options { MetaDataX = true;
     BodyLength =""packet"" x_y_z= 007
-crc crc //x
+crc //x
 = ""abc"" ;
     msg_type =
-i16 }")).
+i16 i16 }")).
 Eval vm_compute in ("<<<M460>>>" ++ check (runes_of_ascii "packet uint8x
 { match pack
     as msg_type	{
@@ -775,21 +1064,16 @@ a1
     { } options {packetx
     = '\x00'	; u128= ""a	b""  ; }
 ")).
-Eval vm_compute in ("<<<M1288>>>" ++ check (runes_of_ascii "// top
-root
-    // c0
-packet P
-    // c2
-{ // c3a
-  // c3b
-repeat // c4
-string // c5
-ss , // c7
-repeat u16 ns ,
-    // c11
-} // c12a
-  // c12b
-")).
+Eval vm_compute in ("<<<M185>>>" ++ check (runes_of_ascii "root packet lengthOf{ @leftPad
+    (
+' '// c
+)
+repeat char MetaDataX
+,
+}MetaData
+Pad {
+msg_type rootA// trailing space 
+`// not a comment`, }")).
 Eval vm_compute in ("<<<M524>>>" ++ check (runes_of_ascii "packet uint8x
 { match pack
     as msg_type	{
@@ -800,198 +1084,203 @@ Eval vm_compute in ("<<<M524>>>" ++ check (runes_of_ascii "packet uint8x
 a1
     { } options {packetx
     = '\x00'	; u128=")).
-Eval vm_compute in ("<<<M1296>>>" ++ check (runes_of_ascii "packet A {
-    u8 a,
-}
-packet B {
-    u16 b,
-}
-root packet P {
-    u8 K,
-    match K as M {
-        1 : A,
-        1 : B,
-    },
-}
+Eval vm_compute in ("<<<M1741>>>" ++ check (runes_of_ascii "packet	A
+
+    {match 
+k  as n
+{  [ 1
+
+    ,
+	""bb""
+	,	007 ,""d"" 
+,	5
+,""f""
+
+,
+7
+,
+    ""h""
+,
+9
+
+, ""j""
+
+    ] :  B
+	2 :
+
+C
+} ,}
 ")).
-Eval vm_compute in ("<<<M173>>>" ++ check (runes_of_ascii "
-options
-    { zchar
-    = 10 ; matchKey = char[ /// triple
-1
-    ]
-u	= ""a\""b"" ;
-    x_y_z =
-    42 ; } MetaData Logon{ }")).
-Eval vm_compute in ("<<<M1160>>>" ++ check (runes_of_ascii "MetaData leftPad { chars MetaDataX , } packet repeatCount
+Eval vm_compute in ("<<<M1940>>>" ++ check (runes_of_ascii "packet A
+	{ match k 
+as 
+n
+	{ [ 1  ,
+
+22
+    ,  ""c c"" ,
+
+    4
+
+, 
+5 ,""f""  ,  7 ,	8
+	, 
+""i"" , 10]:	B
+
+2
+    :
+	C } ,
+}
+
+")).
+Eval vm_compute in ("<<<M1148>>>" ++ check (runes_of_ascii "MetaData leftPad {
 // c
-{ char[ 255 ] uint8x `" ++ [233]%N ++ runes_of_ascii "` , } MetaData pack { As Foo , }")).
-Eval vm_compute in ("<<<M218>>>" ++ check (runes_of_ascii "
-MetaData
-uint8x { char[ 007
-    ]leftPad ,Pad
-T ,u64 BodyLength , char[] int  ,float
-Z9_ , float32 metadata
-    , }
-")).
-Eval vm_compute in ("<<<M915>>>" ++ check (runes_of_ascii "packet A {
+chars MetaDataX , } packet repeatCount { char[ 255 ] uint8x `" ++ [233]%N ++ runes_of_ascii "` , } MetaData pack { As Foo , }")).
+Eval vm_compute in ("<<<M1180>>>" ++ check (runes_of_ascii "MetaData leftPad { chars MetaDataX , } packet repeatCount { char[ 255 ] uint8x `" ++ [233]%N ++ runes_of_ascii "` , } MetaData pack
+// c
+{ As Foo , }")).
+Eval vm_compute in ("<<<M893>>>" ++ check (runes_of_ascii "packet A {
   match k as n {
-    [""a"", ""bb"", 007, ""d"", ""e"", 66, ""g"", ""h"", 9, ""j"", ""k"", 12] : B
+    [""a"", ""bb"", ""c c"", ""d"", ""e"", ""f"", ""g"", ""h"", ""i"", ""j"", ""k""] : B,
     2 : C
   },
 }")).
-Eval vm_compute in ("<<<M1278>>>" ++ check (runes_of_ascii "  options{ 
-LittleEndian =	true
-	; } root	packet
-	P {	u16  a ,u32 
-Sum
-@calculatedFrom(
-""CRC32""  )	, }
-
-")).
-Eval vm_compute in ("<<<M671>>>" ++ check (runes_of_ascii "// @lengthOf(
-packet i8i8 { u128 o , }
-options { MetaDataX = true;
-    BodyLength =""packet"" x_y_z= 0")).
-Eval vm_compute in ("<<<M876>>>" ++ check (runes_of_ascii "packet A {
+Eval vm_compute in ("<<<M908>>>" ++ check (runes_of_ascii "packet A {
   match k as n {
-    [""a"", ""bb"", 007, ""d"", ""e"", 66, ""g"", ""h"", 9] : B
+    [1, ""bb"", 007, ""d"", 5, ""f"", 7, ""h"", 9, ""j"", 11, ""l""] : B,
     2 : C
   },
 }")).
-Eval vm_compute in ("<<<M578>>>" ++ check (runes_of_ascii "
-packet
-    asx {match u128 as as lengthOf
-{
-//	t
-// `tick` ""quote"" 'q'
-255 : x ,
-    } ,	}")).
-Eval vm_compute in ("<<<M633>>>" ++ check (runes_of_ascii "
-packet
-    asx {match u128 as `lengthOf
-{
-//	t
-// `tick` ""quote"" 'q'
-255 : x ,
-    } ,	}")).
-Eval vm_compute in ("<<<M562>>>" ++ check (runes_of_ascii "
-packet
-    asx match u128 as lengthOf
-{
-//	t
-// `tick` ""quote"" 'q'
-255 : x ,
-    } ,	}")).
-Eval vm_compute in ("<<<M1745>>>" ++ check (runes_of_ascii "packet
-order_item {
-
-u8
-	a 
-,
-
-} root
-    packet  new_order	{order_item
-,
-u8	x  ,	}
-
-")).
-Eval vm_compute in ("<<<M469>>>" ++ check (runes_of_ascii "packet uint8x
-{ match pack
-    as msg_type	{
-    0123456789 :	float
-}
-,
-} packet")).
-Eval vm_compute in ("<<<M1778>>>" ++ check (runes_of_ascii "// a // b
-options {
-    Foo = '\x00'
-    pack = zchar[65535];
-    int = ""\n"";
+Eval vm_compute in ("<<<M895>>>" ++ check (runes_of_ascii "packet A {
+  match k as n {
+    [1, ""bb"", 007, ""d"", 5, ""f"", 7, ""h"", 9, ""j"", 11] : B,
+    2 : C
+  },
 }")).
-Eval vm_compute in ("<<<M1612>>>" ++ check (runes_of_ascii "packet A
-	{ Inner{ 
-u8 
-x`x
-`
-,	Deep {  u8 y
-
-    `x
-`
-    , }
-,}	,
-}
-
-")).
-Eval vm_compute in ("<<<M1887>>>" ++ check (runes_of_ascii "packet A
+Eval vm_compute in ("<<<M932>>>" ++ check (runes_of_ascii "packet A {
+    Inner {
+        u8 x `
+`,
+        Deep {
+            u8 y `
+`,
+        },
+    },
+}")).
+Eval vm_compute in ("<<<M615>>>" ++ check (runes_of_ascii "
+packet
+    asx {match u128 as lengthOf
 {
+//	t
+// `tick` ""quote"" 'q'
+255 : x ,
+    match ,	}")).
+Eval vm_compute in ("<<<M842>>>" ++ check (runes_of_ascii "packet A {
+  match k as n {
+    [""a"", ""bb"", ""c c"", ""d"", ""e"", ""f"", ""g""] : B
+    2 : C
+  },
+}")).
+Eval vm_compute in ("<<<M619>>>" ++ check (runes_of_ascii "
+packet
+    asx {match u128 as lengthOf
+{
+//	t
+// `tick` ""quote"" 'q'
+255 : x ,
+    } }	,")).
+Eval vm_compute in ("<<<M592>>>" ++ check (runes_of_ascii "
+packet
+    asx {match u128 as lengthOf
+{
+//	t
+// `tick` ""quote"" 'q'
+ : x ,
+    } ,	}")).
+Eval vm_compute in ("<<<M837>>>" ++ check (runes_of_ascii "packet A {
+  match k as n {
+    [""a"", ""bb"", 007, ""d"", ""e"", 66] : B
+    2 : C
+  },
+}")).
+Eval vm_compute in ("<<<M916>>>" ++ check (runes_of_ascii "packet A { Inner { match k as n { [1,22,007,4,5,66,7,8,9,10,11,12] : B, }, }, }")).
+Eval vm_compute in ("<<<M1566>>>" ++ check (runes_of_ascii "packet A {
+    @tag(1)
+    // a
+    @leftPad('0')
+    // b
+    char[4] x,
+}")).
+Eval vm_compute in ("<<<M1758>>>" ++ check (runes_of_ascii "
+// c
+    packet body	{
 
-Inner	{ 
-u8
-x`
-x`  ,Deep {  u8
+    i32
 
-    y 
-`
-x`
-,	} ,}
-	, }
+f32a	`{ , }`
+,
+
+}
+    options{  }
+
 ")).
 Eval vm_compute in ("<<<M851>>>" ++ check (runes_of_ascii "packet A { Inner { match k as n { [1,22,007,4,5,66,7] : B, }, }, }")).
-Eval vm_compute in ("<<<M783>>>" ++ check (runes_of_ascii "packet A {
-  match k as n {
-    [1, ""bb""] : B
-    2 : C
-  },
+Eval vm_compute in ("<<<M151>>>" ++ check (runes_of_ascii "packet
+    stringy
+{ } MetaData crc
+/// triple
+//x
+{ u16 o ,}")).
+Eval vm_compute in ("<<<M1949>>>" ++ check (runes_of_ascii "root packet P {
+    hdr {
+        u8 a,
+    },
+    u8 x,
 }")).
-Eval vm_compute in ("<<<M1089>>>" ++ check (runes_of_ascii "packet A { // a
- @tag(1) u8 x, // b
- // c
- @tag(2) u8 y, }")).
-Eval vm_compute in ("<<<M1220>>>" ++ check (runes_of_ascii "packet body { i32 f32a `{ , }` , } options { }
-// c
+Eval vm_compute in ("<<<M1219>>>" ++ check (runes_of_ascii "packet body { i32 f32a `{ , }` , } options { } // c
 ")).
-Eval vm_compute in ("<<<M1850>>>" ++ check (runes_of_ascii "packet body {
-    i32 f32a `{ , }`,
-}
-
-options {
-}")).
-Eval vm_compute in ("<<<M429>>>" ++ check (runes_of_ascii "packet uint8x
-{ match pack
-    as msg_type")).
-Eval vm_compute in ("<<<M752>>>" ++ check (runes_of_ascii "repeatCount u32 as false uint64 0 @tag(")).
-Eval vm_compute in ("<<<M424>>>" ++ check (runes_of_ascii "packet uint8x
-{ match pack
-    as")).
-Eval vm_compute in ("<<<M36>>>" ++ check (runes_of_ascii "// c
-packet asx  {} /// triple")).
-Eval vm_compute in ("<<<M917>>>" ++ check (runes_of_ascii "packet A {
-    u8 x `a
-b`,
-}")).
-Eval vm_compute in ("<<<M1472>>>" ++ check (runes_of_ascii "
-// c" ++ [160]%N ++ runes_of_ascii "
-	packet
-
-A{
-}
-
+Eval vm_compute in ("<<<M1085>>>" ++ check (runes_of_ascii "packet A { B { // a
+ u8 x, // b
+ } // c
+ , // d
+ }")).
+Eval vm_compute in ("<<<M7>>>" ++ check (runes_of_ascii "options {  metadata = ""a\\""// @lengthOf(
+;}
 ")).
-Eval vm_compute in ("<<<M1110>>>" ++ check (runes_of_ascii "MetaData tag {
-// c
+Eval vm_compute in ("<<<M1066>>>" ++ check (runes_of_ascii "packet A {
+    u8 x,    // c    u8 y,
 }")).
-Eval vm_compute in ("<<<M112>>>" ++ check (runes_of_ascii "packet falsey { }
-")).
-Eval vm_compute in ("<<<M1051>>>" ++ check (runes_of_ascii "packet A {
-}
-// c" ++ [65279]%N)).
-Eval vm_compute in ("<<<M1054>>>" ++ check (runes_of_ascii "packet A {
-}// c" ++ [6158]%N)).
-Eval vm_compute in ("<<<M319>>>" ++ check (runes_of_ascii "packet o
+Eval vm_compute in ("<<<M1719>>>" ++ check (runes_of_ascii "
+packet	A
 {
+
+u8	x
+	`d" ++ [65279]%N ++ runes_of_ascii "` , // c" ++ [65279]%N ++ runes_of_ascii "
+}")).
+Eval vm_compute in ("<<<M1890>>>" ++ check (runes_of_ascii "
+packet  A
+    {
+
+} 
+    // c" ++ [6158]%N ++ runes_of_ascii "
+")).
+Eval vm_compute in ("<<<M1058>>>" ++ check (runes_of_ascii "packet A {
+ u8 x `d" ++ [6158]%N ++ runes_of_ascii "`, // c" ++ [6158]%N ++ runes_of_ascii "
+}")).
+Eval vm_compute in ("<<<M1697>>>" ++ check (runes_of_ascii "packet
+A
+    { }
+	// c" ++ [8192]%N ++ runes_of_ascii "
+")).
+Eval vm_compute in ("<<<M153>>>" ++ check (runes_of_ascii "// trailing space 
+
+")).
+Eval vm_compute in ("<<<M244>>>" ++ check (runes_of_ascii "MetaData u128{} //x")).
+Eval vm_compute in ("<<<M1006>>>" ++ check (runes_of_ascii "packet A {
 }
-")).
-Eval vm_compute in ("<<<M990>>>" ++ check (runes_of_ascii "// c" ++ [133]%N)).
-Eval vm_compute in ("<<<M19>>>" ++ check (runes_of_ascii "
-")).
+// c" ++ [8202]%N)).
+Eval vm_compute in ("<<<M729>>>" ++ check (runes_of_ascii "// only a comment")).
+Eval vm_compute in ("<<<M409>>>" ++ check (runes_of_ascii "packet uint8x
+{")).
+Eval vm_compute in ("<<<M749>>>" ++ check ([1; 65533]%N ++ runes_of_ascii ">&EQX" ++ [65533]%N ++ runes_of_ascii "P" ++ [65533; 65533]%N)).
+Eval vm_compute in ("<<<M1050>>>" ++ check (runes_of_ascii "// c" ++ [65279]%N)).
